@@ -136,6 +136,33 @@ func (e *Engine) verifyFuncFor(key string, budget int, prop string) (res *FuncRe
 		}
 		res.LoopsWithInv = len(seen)
 		for _, cl := range ct.Clauses {
+			if cl.Kind == "cut" && cl.Loop < 0 {
+				// cut: proved at entry in the main run of the property, assumed in the variant it is tagged with
+				isVariant := false
+				for _, p := range cl.Props {
+					if p == x.prop {
+						isVariant = true
+					}
+				}
+				if isVariant {
+					c.assume(fr.evalSpecBool(cl.Expr, fr.cur, nil, map[string]sval{}))
+					x.externs[fmt.Sprintf("CUT assumed in variant %s of %s (proved at entry in the main run): %s", x.prop, key, cl.Text)] = true
+				} else {
+					base := false
+					for _, p := range cl.Props {
+						if i := strings.Index(p, "@"); i > 0 && p[:i] == x.prop {
+							base = true
+						}
+					}
+					if base || x.prop == "" {
+						for _, cj := range splitConj(cl.Expr) {
+							ncl := &Clause{Kind: "cut", Line: cl.Line}
+							fr.proveSpec("cut", "cut formula proved at entry (assumed by the variant run): "+cj.String(), ncl, cj, fr.cur, nil, map[string]sval{})
+						}
+					}
+				}
+				continue
+			}
 			if !x.active(cl) || cl.Loop >= 0 {
 				continue
 			}
